@@ -508,7 +508,7 @@ func (b *Bridge) after(in *hub.Instance, g *bridgeGhost, op engine.Op, pre *view
 				// have nobody to be returned to: they simply stay pending
 				// ... and so does a transfer whose refund cannot be issued because governance took its token off the
 				// originating chain's list (it is refunded once the token is listed again)
-				if t := b.tokenByExt(ch, e.Token.ExternalTokenId); t != nil && (g.Delisted[e.RefundChainId+"|"+t.Denom] || g.Delisted[ch+"|"+t.Denom]) {
+				if t := b.tokenByExt(ch, e.Token.ExternalTokenId); t != nil && (g.Delisted[e.RefundChainId+"|"+t.Denom] || g.Delisted[ch+"|"+t.Denom] || g.Delisted["repoint|"+ch+"|"+t.Denom]) {
 					continue // ... or its own token is off the list: there is no denom to refund in
 				}
 				// the age of a transfer counts from its creation (the reference's own record of it), whatever the entry says now
@@ -588,6 +588,33 @@ func (b *Bridge) after(in *hub.Instance, g *bridgeGhost, op engine.Op, pre *view
 			}
 			if n > 0 {
 				st.Count("cross_chain_transfers_checked", 1)
+			}
+		}
+	}
+
+	// ---- C01: "supply grows only by exactly the amount locked by an observed deposit": in an EndBlocker that applies deposits
+	// only (no execution, no expiry) the total supply of a denom - the module's own accounts included - grows by at most what
+	// those deposits locked
+	if endBlock && b.Cfg.Prop == "C01" && len(g.Pending) > 0 && len(expiredNow) == 0 {
+		only := true
+		lockedBy := map[string]*big.Rat{}
+		for _, p := range g.Pending {
+			if p.Kind != "dep-hub" && p.Kind != "dep-chain" {
+				only = false
+				break
+			}
+			if lockedBy[p.Denom] == nil {
+				lockedBy[p.Denom] = new(big.Rat)
+			}
+			l, _ := new(big.Rat).SetString(p.Locked)
+			lockedBy[p.Denom].Add(lockedBy[p.Denom], l)
+		}
+		if only {
+			for d, l := range lockedBy {
+				grown := new(big.Rat).SetInt(post.Supply[d].Sub(pre.Supply[d]).BigInt())
+				if grown.Cmp(l) > 0 {
+					st.Violate("C01", "supply_grew_by_more_than_the_deposits_locked", "Handle("+pendingKinds(g.Pending)+")", "the deposits applied in this EndBlocker locked %s %s in external custody, the total supply of %s (module accounts included) grew by %s", l.RatString(), d, d, grown.RatString())
+				}
 			}
 		}
 	}
